@@ -73,11 +73,17 @@ class SQLLineageApp:
                     request_body_size = int(environ["CONTENT_LENGTH"])
                     request_body = environ["wsgi.input"].read(request_body_size)
                     payload = json.loads(request_body)
+                    # compare normalised paths component-wise: a string prefix test lets "root/../.." and
+                    # "root_sibling" through
+                    root = os.path.abspath(self.root_path)
                     for param in ["d", "f"]:
-                        if param in payload and not str(
-                            Path(payload[param]).absolute()
-                        ).startswith(str(Path(self.root_path).absolute())):
-                            return self.handle_403(start_response)
+                        if param in payload:
+                            target = Path(payload[param])
+                            if param == "f" and path_info == "/directory":
+                                # what gets listed is the directory holding the file
+                                target = target.parent
+                            if os.path.commonpath([root, os.path.abspath(target)]) != root:
+                                return self.handle_403(start_response)
                     data = self.routes[path_info](payload)
                     return self.handle_200_json(start_response, data)
                 else:
